@@ -12,6 +12,7 @@ L = lambda c, f=0, g=0, kd="": {"c": c, "f": f, "g": g, "kd": kd}
 HDR = [L("diff", 1, 1, "mod"), L("index"), L("mmm", 1), L("ppp", 1)]
 RE_ARGS = {"w": [], "dot": ["--word-diff-regex", "."], "S": ["--word-diff-regex", "\\S+"]}
 THR_ARGS = {0: ["--max-line-distance", "0"], 60: ["--max-line-distance", "0.6"], 100: ["--max-line-distance", "1.0"]}
+TABS0 = False
 
 
 def strings(alpha, n):
@@ -21,7 +22,7 @@ def strings(alpha, n):
     return out
 
 
-def render_batch(cases, thr, re, sbs=False):
+def render_batch(cases, thr, re, sbs=False, extra=()):
     """cases: list of (minus_lines, plus_lines). Returns per case the rows of its hunk."""
     hist = list(HDR)
     table = {}
@@ -37,7 +38,8 @@ def render_batch(cases, thr, re, sbs=False):
             table[len(hist)] = s
         spans.append(start)
     data, texts = gitskin.concretise(hist, payload=lambda k, c: table[k])
-    args = gitskin.RS_ARGS + THR_ARGS[thr] + RE_ARGS[re] + (["--side-by-side"] if sbs else [])
+    args = (gitskin.rs_args(2000) if any(len(x) > 150 for c in cases for side in c for x in side) else gitskin.RS_ARGS) \
+        + THR_ARGS[thr] + RE_ARGS[re] + (["--side-by-side"] if sbs else []) + list(extra)
     r = core.run_delta(args, data, timeout=60)
     intern = gitskin.Interner()
     rows = [gitskin.parse_row(b, intern) for b in r.out.split(b"\n")[:-1]]
@@ -136,18 +138,44 @@ def run(tier):
         longc.append((["".join(base)], ["".join(other)]))
     batches(longc, 60, "w")
     batches(longc, 100, "S")
+    # very long lines with a tiny change, at threshold 0 (only whitespace differences may pair) and just
+    # around other thresholds; different kinds of whitespace facing each other
+    tiny = []
+    for i in range(60 if tier == "quick" else 600):
+        r2 = random.Random(core.seed() * 52361 + i)
+        ws = [r2.choice(["alpha", "beta", "gamma", "x", "y", "delta_9"]) for _ in range(r2.randint(60, 90))]
+        a = " ".join(ws)
+        j = r2.randrange(len(ws))
+        ws2 = list(ws)
+        ws2[j] = r2.choice(["q", "z", ws[j] + "Q"])
+        tiny.append(([a], [" ".join(ws2)]))
+        tiny.append(([a], [a.replace(" ", "  ", 3)]))                 # whitespace-only difference: may pair
+    batches(tiny, 0, "w")
+    uni = []
+    SPACES = [" ", "\u00a0", "\u3000", "\t"]
+    for i in range(150 if tier == "quick" else 1500):
+        r2 = random.Random(core.seed() * 7349 + i)
+        toks = [r2.choice(["a", "b", "foo", "é"]) for _ in range(r2.randint(2, 5))]
+        s1 = "".join(t + r2.choice(SPACES) for t in toks)
+        s2 = "".join(t + r2.choice(SPACES) for t in toks)
+        uni.append(([s1], [s2]))
+    plans.append((uni, 60, "w", ("--tabs", "0")))
+    plans.append((uni, 0, "w", ()))
+    plans.append((uni[:100], 100, "dot", ("--tabs", "0")))
 
     def one(plan):
-        cases, thr, re = plan
-        r, hunks = render_batch(cases, thr, re)
+        cases, thr, re = plan[:3]
+        extra = plan[3] if len(plan) > 3 else ()
+        r, hunks = render_batch(cases, thr, re, extra=extra)
         multi_line = any(len(m) + len(p) > 2 for m, p in cases)
-        rs, shunks = (render_batch(cases, thr, re, sbs=True) if multi_line else (None, None))
+        rs, shunks = (render_batch(cases, thr, re, sbs=True, extra=extra) if multi_line else (None, None))
         return r, hunks, rs, shunks
 
     res = core.pmap(one, plans)
     events, meta = [], []
     anomalies = 0
-    for (cases, thr, re), (r, hunks, rs, shunks) in zip(plans, res):
+    for plan, (r, hunks, rs, shunks) in zip(plans, res):
+        cases, thr, re = plan[:3]
         if r.code != 0 or len(hunks) != len(cases):
             V.violation(f"render:{thr}:{re}:{r.code}", f"batch did not render: exit {r.code}, {len(hunks)} hunks for {len(cases)} cases "
                         f"{r.err[:200]!r}", {"run": r.to_json()})
